@@ -377,3 +377,44 @@ func VP_AZ_pure() {
 	vpAssert(vpGlobalWrites() == 0, "no package-level state is written")
 	vpCover("reached", true)
 }
+
+// C13 (Aztec clause): for an automatically sized symbol, explicitly requesting any smaller
+// compact or full-range size for the same payload and percentage is refused.
+func VP_AZ_minimal() {
+	n := vpConfig("n")
+	data := make([]byte, n)
+	for i := range data {
+		data[i] = 0x92 | byte(i%2)<<5
+	}
+	pct := vpIntRange("pct", vpConfig("minpct"), vpConfig("maxpct"))
+	bc, err := Encode(data, pct, 0)
+	if err != nil {
+		// nothing fits automatically: then no explicit request of any type may succeed either
+		for _, req := range []int{-4, 4, 32} {
+			b2, e2 := Encode(data, pct, req)
+			vpAssert(e2 != nil && b2 == nil, "what no automatic size holds, no explicit size holds")
+		}
+		vpCover("nothing-fits", true)
+		return
+	}
+	compact, layers := vpTypeOf(bc.Bounds().Dx(), 0)
+	vpAssert(layers > 0, "automatic choice is a standard size")
+	// order of preference: compact 1..4, full range 4..32 (full range 1..3 have the sizes of compact 2..4)
+	var smaller []int
+	for l := 1; l <= 4; l++ {
+		if compact && l >= layers {
+			break
+		}
+		smaller = append(smaller, -l)
+	}
+	if !compact {
+		for l := 1; l < layers; l++ {
+			smaller = append(smaller, l)
+		}
+	}
+	for _, req := range smaller {
+		b2, e2 := Encode(data, pct, req)
+		vpAssert(e2 != nil && b2 == nil, "a smaller size than the automatic one is refused for the same payload and percentage")
+	}
+	vpCover("accepted", true)
+}
